@@ -8,8 +8,8 @@
    Codes: 0  inside; same nets and leaf devices; packages syntactically identical
           7  inside; same nets and leaf devices; packages differ in something the property does not fix (order / names of
              invented signals: the implementation creates them in the order references were fetched during the history)
-          9  outside the fragment (shape_ok / closed_ok / wf_design of the design of the final mapping fail: a template
-             instance that is not part of the module, a kind the tables do not spell)
+          9  outside the fragment (shape_ok / closed_mod_ok / wf_design of the design of the final mapping fail: a connection of
+             a module instance on a name that is no port, a kind the tables do not spell)
           8  outside frag_ok2 (loop between group sources); the implementation's package has the nets of the design
           1  the implementation's package does not have the nets / devices of the design of the final mapping
           6  the implementation rejected the complete valid final mapping
@@ -54,9 +54,16 @@ Definition inst_eqb (a b : inst) : bool :=
 (* the parents of two designs of one universe: same instances, same connections *)
 Definition tops_eqb (a b : module) : bool := list_eqb inst_eqb (m_insts a) (m_insts b).
 
+(* every connected port OF AN INSTANCE OF THE MODULE is a port of the universe.  Instances outside the module (the template of
+   `n * Instance`) may hold any connections: Props/C04E.v:C04E_groups_agree_open needs no closedness, design_of ignores them,
+   and so does the repaired elaborator.  (A connection of a module instance on a name that is no port makes the REAL design
+   invalid, while design_of would not see it: such a history is outside.) *)
+Definition closed_mod_ok (u : universe) (s : state) : bool :=
+  forallb (fun e => negb (existsb (fun x => ui_id x =? fst (fst e)) (u_insts u)) || mem (fst e) (upids u)) (st_conns s).
+
 Definition in_fragment (c : c04e_case) : bool :=
   let m := fun q => final q (e_ops c) in
-  shape_ok (e_u c) m && closed_ok (e_u c) (run (e_ops c)) &&
+  shape_ok (e_u c) m && closed_mod_ok (e_u c) (run (e_ops c)) &&
   match wf_design (design_of (e_u c) m) with Ok _ => true | Error _ => false end.
 
 Definition chk_c04e (c : c04e_case) : Z :=
@@ -77,10 +84,10 @@ Definition chk_c04e (c : c04e_case) : Z :=
   | Some _, None => 4
   end.
 
-(* why a case is outside: 1 shape_ok, 2 closed_ok, 4 wf_design (bit mask), for the coverage report *)
+(* why a case is outside: 1 shape_ok, 2 closed_mod_ok, 4 wf_design (bit mask), for the coverage report *)
 Definition c04e_why (c : c04e_case) : Z :=
   let m := fun q => final q (e_ops c) in
-  (if shape_ok (e_u c) m then 0 else 1) + (if closed_ok (e_u c) (run (e_ops c)) then 0 else 2) +
+  (if shape_ok (e_u c) m then 0 else 1) + (if closed_mod_ok (e_u c) (run (e_ops c)) then 0 else 2) +
   (match wf_design (design_of (e_u c) m) with Ok _ => 0 | Error _ => 4 end).
 
 (* the model's result, for diagnosis *)
